@@ -35,6 +35,9 @@ func (c20) Batches(tier string, seed uint64) []core.Batch {
 	b = append(b, spread("ok", 4, tierN(tier, 40, 400))...)
 	b = append(b, spread("fault", 4, tierN(tier, 60, 600))...)
 	b = append(b, spread("hostile", 4, tierN(tier, 30, 300))...)
+	if tier == "thorough" {
+		b = append(b, spread("strace", 8, 12)...)
+	}
 	return b
 }
 
@@ -49,6 +52,9 @@ func (c20) Mandatory(tier string) []string {
 		for _, f := range []string{"missing-source", "missing-control-file", "dest-occupied", "dest-occupied-control", "dest-missing", "dest-is-file"} {
 			m = append(m, "fault:"+op+":"+f)
 		}
+	}
+	if tier == "thorough" && have("strace") {
+		m = append(m, "strace:syscalls-observed", "strace:dry-run:Copy", "strace:dry-run:Move", "strace:dry-run:Remove", "strace:injected:Copy", "strace:injected:Move", "strace:injected:Remove")
 	}
 	return append(m, "fault:Copy:control-copy-cut-short", "fault:Remove:missing-source", "k:0", "k:1", "k:2+", "order:copy-control-after-all-closed", "order:move-control-last",
 		"order:remove-control-last", "hostile:../secret.txt", "hostile:sub/../../secret.txt", "hostile:../../other/o.txt", "hostile:/abs/x", "hostile:sub/inner.txt", "inotify-events-seen", "dest-has-longer-files-of-the-same-names")
@@ -470,6 +476,10 @@ func plainNames(r *core.Rand, k int) []string {
 }
 
 func (p c20) RunBatch(t *core.T, b core.Batch) {
+	if b.Name == "strace" {
+		p.straceBatch(t, b)
+		return
+	}
 	r := t.Rand(b.Name, fmt.Sprint(b.Arg))
 	ops := []string{"Copy", "Move", "Remove"}
 	hs := []string{"dsc", "changes"}
@@ -508,6 +518,13 @@ func (p c20) RunBatch(t *core.T, b core.Batch) {
 }
 
 func (p c20) RunCase(t *core.T, kind string, input []byte) {
+	if kind == "strace" {
+		var ts c20Trace
+		if json.Unmarshal(input, &ts) == nil {
+			t.Case(kind, input, func(c *core.C) { p.strace(c, t, ts) })
+		}
+		return
+	}
 	var cs c20Case
 	if json.Unmarshal(input, &cs) == nil {
 		t.Case(kind, input, func(c *core.C) { p.run(c, t, cs) })
